@@ -85,11 +85,12 @@ P("C07", [("V2", None), ("V9", None)],
   "Not reached: clause generation for associated types (program_clauses.rs, clauses.rs), the solver search itself. Assumed: calculate_inputs abstract, Solution::combine's contract (V1).",
   "contract-based deductive verification: Verus on mechanically extracted function text")
 
-P("C13", [("V1", None), ("V2", None), ("V18", None), ("K1", r"^k3_l_priority_meet")],
+P("C13", [("V1", None), ("V2", None), ("V18", None), ("V23", None), ("K1", r"^k3_l_priority_meet")],
   "proof",
   "Partial (function-level links): commutativity of Solution::combine (Verus lemma over its verified functional contract), argument-order independence of with_priorities (Verus), "
   "commutativity/associativity/idempotence of the ClausePriority meet (Kani, full domain), and the tabling step solve_goal recording every dependency on a provisional answer "
-  "whatever the order in which sibling goals are evaluated (Verus, V18) — without it the recursive solver's cached answers depend on impl order. Unbounded / complete.",
+  "whatever the order in which sibling goals are evaluated (Verus, V18) — without it the recursive solver's cached answers depend on impl order — and the fixed-point loop leaving no result computed against a "
+  "superseded answer in the graph when it stops on a changed answer (Verus, V23 clause G: on the pinned code `exists<T> { Vec<T>: Foo }` was `Unique` or `Ambiguous` depending on the order of two where-clauses, DESIGN section 6g). Unbounded / complete.",
   "Not reached: iteration order of impls, the environment hash set, arrival order of answers in merge_into_guidance. Assumed: two trivially-true solutions of one query are equal.",
   "contract-based deductive verification: Verus lemmas over verified contracts + Kani full-domain harness")
 
